@@ -380,7 +380,10 @@ impl SvgElement {
 
         let mut p = Position::from(self as &SvgElement);
         if self.name == "use" {
-            if let Some(href) = self.get_attr("href").or_else(|| self.get_attr("xlink:href")) {
+            if let Some(href) = self
+                .get_attr("href")
+                .or_else(|| self.get_attr("xlink:href"))
+            {
                 let elref = href.parse()?;
                 let el = ctx
                     .get_element(&elref)
@@ -732,12 +735,20 @@ impl SvgElement {
 
         // The width/height cases cover rect-like elements, but they are also used
         // as intermediate (e.g. `wh` expansion) size attributes for other elements.
+        // As for bbox_raw(): a length with units or a percentage (e.g. "10cm", "50%")
+        // is not an error, it just means no size can be computed.
+        fn passthrough(value: &str) -> bool {
+            strp(value).is_err()
+                && !(value.contains(VAR_PREFIX)
+                    || value.contains(ELREF_ID_PREFIX)
+                    || value.contains(ELREF_PREVIOUS))
+        }
         let mut width = None;
         let mut height = None;
-        if let Some(w) = self.attrs.get("width") {
+        if let Some(w) = self.attrs.get("width").filter(|w| !passthrough(w)) {
             width = Some(strp(w)?);
         }
-        if let Some(h) = self.attrs.get("height") {
+        if let Some(h) = self.attrs.get("height").filter(|h| !passthrough(h)) {
             height = Some(strp(h)?);
         }
         match self.name.as_str() {
@@ -765,14 +776,30 @@ impl SvgElement {
                 height = Some(0.);
             }
             "circle" => {
-                if let Some(r) = self.attrs.get("r").map(|n| strp(n)).transpose()? {
+                if let Some(r) = self
+                    .attrs
+                    .get("r")
+                    .filter(|n| !passthrough(n))
+                    .map(|n| strp(n))
+                    .transpose()?
+                {
                     width = Some(r * 2.0);
                     height = Some(r * 2.0);
                 }
             }
             "ellipse" => {
-                let rx = self.attrs.get("rx").map(|n| strp(n)).transpose()?;
-                let ry = self.attrs.get("ry").map(|n| strp(n)).transpose()?;
+                let rx = self
+                    .attrs
+                    .get("rx")
+                    .filter(|n| !passthrough(n))
+                    .map(|n| strp(n))
+                    .transpose()?;
+                let ry = self
+                    .attrs
+                    .get("ry")
+                    .filter(|n| !passthrough(n))
+                    .map(|n| strp(n))
+                    .transpose()?;
                 if let Some(rx) = rx {
                     width = Some(rx * 2.0);
                 }
@@ -781,13 +808,33 @@ impl SvgElement {
                 }
             }
             "line" => {
-                let x1 = self.attrs.get("x1").map(|n| strp(n)).transpose()?;
-                let x2 = self.attrs.get("x2").map(|n| strp(n)).transpose()?;
+                let x1 = self
+                    .attrs
+                    .get("x1")
+                    .filter(|n| !passthrough(n))
+                    .map(|n| strp(n))
+                    .transpose()?;
+                let x2 = self
+                    .attrs
+                    .get("x2")
+                    .filter(|n| !passthrough(n))
+                    .map(|n| strp(n))
+                    .transpose()?;
                 if let (Some(x1), Some(x2)) = (x1, x2) {
                     width = Some((x2 - x1).abs());
                 }
-                let y1 = self.attrs.get("y1").map(|n| strp(n)).transpose()?;
-                let y2 = self.attrs.get("y2").map(|n| strp(n)).transpose()?;
+                let y1 = self
+                    .attrs
+                    .get("y1")
+                    .filter(|n| !passthrough(n))
+                    .map(|n| strp(n))
+                    .transpose()?;
+                let y2 = self
+                    .attrs
+                    .get("y2")
+                    .filter(|n| !passthrough(n))
+                    .map(|n| strp(n))
+                    .transpose()?;
                 if let (Some(y1), Some(y2)) = (y1, y2) {
                     height = Some((y2 - y1).abs());
                 }
